@@ -13,6 +13,8 @@ package main
 //	verifpg://fixture/<schema>?variant=<1|2>   a client bound to the schema <schema>
 //	verifpg://fixture/?variant=<1|2>           a client bound to the realm (schemas <a> and <a>_2; a from ?name=)
 //
+// ?comment= and ?charset= set the comment / character set of the fixture schemas themselves.
+//
 // The commands that only read a database (schema inspect, schema diff) can then be run for these
 // dialects without a server. Nothing can be executed on such a client.
 
@@ -38,6 +40,7 @@ type (
 		schema.Differ
 		migrate.PlanApplier
 		dialect, scope, name, variant string
+		comment, charset              string
 	}
 )
 
@@ -104,6 +107,12 @@ func (d *fixtureDriver) realm() *schema.Realm {
 	r := schema.NewRealm()
 	for _, n := range names {
 		s := schema.New(n).SetComment("fixture schema")
+		if d.comment != "" {
+			s.SetComment(d.comment)
+		}
+		if d.charset != "" {
+			s.SetCharset(d.charset)
+		}
 		d.tables(s)
 		r.AddSchemas(s)
 	}
@@ -140,6 +149,7 @@ func init() {
 			}
 			d.scope = strings.Trim(u.Path, "/")
 			d.variant = u.Query().Get("variant")
+			d.comment, d.charset = u.Query().Get("comment"), u.Query().Get("charset")
 			if d.name = u.Query().Get("name"); d.name == "" {
 				d.name = "fixture"
 			}
